@@ -161,16 +161,9 @@ fn cj_md(d: &Box<fmd::PlainMonthDay>) -> Value { wcal(json!({"y": int(d.iso_year
 fn cj_sign(s: &fd::Sign) -> Value { json!(*s as i8) }
 /// "writes an empty string for no era"
 fn era_str(s: String) -> Value { if s.is_empty() { json!([]) } else { json!([s]) } }
-/// the documented I128Nanoseconds scheme: sign taken from `high`, magnitude = |high| * 2^64 + low
-fn i128_decode(n: &fi::I128Nanoseconds) -> i128 {
-    let mag = ((n.high.unsigned_abs() as u128) << 64) | n.low as u128;
-    if n.high < 0 { -(mag as i128) } else { mag as i128 }
-}
-fn i128_encode(v: i128) -> fi::I128Nanoseconds {
-    let mag = v.unsigned_abs();
-    let high = (mag >> 64) as i64;
-    fi::I128Nanoseconds { high: if v < 0 { -high } else { high }, low: mag as u64 }
-}
+/// the documented I128Nanoseconds scheme: bit-by-bit (two's complement) split, value = high * 2^64 + low
+fn i128_decode(n: &fi::I128Nanoseconds) -> i128 { ((n.high as i128) << 64) | n.low as i128 }
+fn i128_encode(v: i128) -> fi::I128Nanoseconds { fi::I128Nanoseconds { high: (v >> 64) as i64, low: v as u64 } }
 
 pub fn call(key: &str, a: &Value) -> Option<Value> {
     let (ty, m) = key.split_once('.')?;
